@@ -32,6 +32,9 @@ def build(world, tier, seed, total, wall, rc, truncated, finding_status, known, 
         "skipped": _group(counts, "skip:"),
         "checks_by_observable": _group(counts, "check:"),
         "other_counters": {k: v for k, v in sorted(counts.items()) if ":" not in k},
+        "outcomes": _group(counts, "outcome:"),
+        "routes": _group(counts, "route:"),
+        "derives": _group(counts, "derive:"),
         "components": world.COMPONENTS,
         "known_findings_reproduced": {k: int(v) for k, v in sorted(total["findings"].items())},
         "finding_programs": {k: int(v) for k, v in sorted(finding_status.items())},
